@@ -47,8 +47,8 @@ GenStruct == \E n \in NSet : \E base \in Bases(n), j \in 1..n, i \in 1..n, w \in
                /\ kind' = "plu_sing" /\ nn' = n /\ aux' = 0
                /\ mat' = MatR(n, LAMBDA r, c : RQ(IF w = "col" THEN (IF c = j THEN 0 ELSE base[<<r, c>>]) ELSE (IF r = i THEN base[<<j, c>>] ELSE base[<<r, c>>])))
 \* a few larger instances from fixed patterns (loops over more rows than the enumerated orders reach; unrolled inner loops)
-PatF(m, v) == [pr \in StrictLower(m) |-> IF m > 5 /\ pr[1] - pr[2] > 2 THEN 0 ELSE ((pr[1] + 2 * pr[2] + v) % 3) - 1]
-PatG(m, v) == [pr \in StrictUpper(m) |-> IF m > 5 /\ pr[2] - pr[1] > 2 THEN 0 ELSE (pr[1] * pr[2] + v) % 2]
+PatF(m, v) == [pr \in StrictLower(m) |-> ((pr[1] + 2 * pr[2] + v) % 3) - 1]
+PatG(m, v) == [pr \in StrictUpper(m) |-> (pr[1] * pr[2] + v) % 2]
 PatD(m, v) == [k \in 1..m |-> IF (k + v) % 2 = 0 THEN -2 ELSE 1]
 PatP(m, v) == IF v = 0 THEN [k \in 1..m |-> m + 1 - k] ELSE [k \in 1..m |-> (k % m) + 1]
 GenBig == \E m \in {5, 10}, v \in {0, 1}, w \in {"plu", "ldl", "llt"} :
